@@ -72,13 +72,19 @@ def _load(prop):
 def _replay_violation(mod, hname, cfg, v):
     from symgem.core import Replayer
 
-    rp = Replayer(v["model"]).run(mod.HARNESSES[hname], cfg)
-    if v["kind"] == "exception":
-        ok = isinstance(rp.exception, dict) and rp.exception["exc_type"] == v["exc_type"]
-        return ok, dict(replay_exception=rp.exception)
-    failed = [lab for lab, okk in rp.results if not okk]
-    ok = v["label"] in failed
-    return ok, dict(replay_exception=rp.exception, replay_failed=failed[:10])
+    info = {}
+    for model in [v["model"]] + list(v.get("alt_models", [])):
+        rp = Replayer(model).run(mod.HARNESSES[hname], cfg)
+        if v["kind"] == "exception":
+            ok = isinstance(rp.exception, dict) and rp.exception["exc_type"] == v["exc_type"]
+            return ok, dict(replay_exception=rp.exception)
+        failed = [lab for lab, okk in rp.results if not okk]
+        info = dict(replay_exception=rp.exception, replay_failed=failed[:10])
+        if v["label"] in failed:
+            if model is not v["model"]:
+                v["model"] = model   # report the model that reproduces
+            return True, info
+    return False, info
 
 
 def run_one(args):
